@@ -963,6 +963,14 @@ def kernel_cases(r: Any, thorough: bool) -> list[dict[str, Any]]:
 
 # ---------------------------------------------------------------- oracle on arbitrary source
 
+def _unrepr(text: str) -> str:
+    return text.replace("FalsyStrictUndefined(", "Undefined(").replace("StrictUndefined(", "Undefined(")
+
+
+# Known finding repr-of-undefined-in-container, re-observed on every run.
+REPR_WITNESS = ("{% assign l = n, m %}{{ 'x' | append: l }}", {"n": 3})
+
+
 def oracle(chk: C.Check, src: str, data: dict[str, Any], outs: dict[str, tuple[str, str]], *, complete: bool,
            auto_escape: bool = False, what: str = "") -> str | None:
     """The property evaluated on the implementation's outcomes of one
@@ -975,8 +983,13 @@ def oracle(chk: C.Check, src: str, data: dict[str, Any], outs: dict[str, tuple[s
     for k, nm in (("S", "StrictUndefined"), ("F", "FalsyStrictUndefined")):
         o = outs[k]
         if o[0] == "ok" and o != d:
-            sig = f"refinement:{nm}"
-            chk.finding(sig, f"{nm} render succeeded with {o[1]!r} but the default policy gives {d!r}: {src!r}", rep)
+            if d[0] == "ok" and _unrepr(o[1]) == d[1]:
+                # known finding: Python str()/repr() of a container prints the class name of an undefined inside it
+                sig = "repr-of-undefined-in-container"
+                chk.finding(sig, f"{nm} prints {o[1]!r}, the default policy {d[1]!r} (Python repr of a list that contains an undefined): {src!r}", rep)
+            else:
+                sig = f"refinement:{nm}"
+                chk.finding(sig, f"{nm} render succeeded with {o[1]!r} but the default policy gives {d!r}: {src!r}", rep)
         if o == ("lerr", "UndefinedError") and p[0] != "miss":
             sig = f"raises-without-missing:{nm}"
             chk.finding(sig, f"{nm} raised UndefinedError although no lookup failed (probe: {p!r}): {src!r}", rep)
@@ -1096,11 +1109,11 @@ def main(chk: C.Check, build: C.Build) -> None:
     cases: list[tuple[list[tuple], dict[str, Any], tuple, bool]] = []
     site = site_programs()
     if not thorough:
-        site = [x for x in site if r.random() < 0.09]
+        site = [x for x in site if r.random() < 0.07]
     for prog, data in site:
         for sub, d in deletions(prog, data, r, 3 if thorough else 2, 2):
             cases.append((prog, d, sub, False))
-    nprog = 1200 if thorough else 120
+    nprog = 800 if thorough else 100
     for i in range(nprog):
         prog = gen_block(r, [], depth=3 if thorough else 2, n=r.choice([1, 2, 2, 3]))
         dels = deletions(prog, BASE, r, 4, 12 if thorough else 3)
@@ -1170,12 +1183,12 @@ def main(chk: C.Check, build: C.Build) -> None:
     # 2. kernel-level tie
     kitems = dunder_cases()
     kall = kernel_cases(r, thorough)
-    kitems += kall if thorough else [k for k in kall if r.random() < 0.2]
+    kitems += kall if thorough else [k for k in kall if r.random() < 0.12]
 
     # 3. oracle beyond the model
     nbeyond = 0
     for src, data, complete in all_filter_sources():
-        if not thorough and r.random() > 0.3:
+        if not thorough and r.random() > 0.5:
             continue
         for ae in (False, True):
             outs = {pol: render_impl(src, data, pol, ae) for pol in POLS}
@@ -1185,6 +1198,8 @@ def main(chk: C.Check, build: C.Build) -> None:
         outs = {pol: render_partial(src, parts, data, pol) for pol in POLS}
         oracle(chk, src, {"data": data, "partials": parts}, outs, complete=complete)
         nbeyond += 1
+    outs = {pol: render_impl(REPR_WITNESS[0], REPR_WITNESS[1], pol) for pol in POLS}
+    oracle(chk, REPR_WITNESS[0], REPR_WITNESS[1], outs, complete=False)
 
     phase["kernel_and_oracle_runs"] = round(time.time() - t0, 1)
     defs = str_defs() + DEFS_CASE
@@ -1193,7 +1208,7 @@ def main(chk: C.Check, build: C.Build) -> None:
     C.correspond(chk, "c16", IMPORTS, defs, items, what="Undefined.render", shard=150)
     # how many template cases did the model decide (not [outside])?  measured on
     # a seeded sample
-    probe = [it for it in items if r.random() < (0.25 if thorough else 0.35)]
+    probe = [it for it in items if r.random() < (0.2 if thorough else 0.3)]
     rc = C.run_cases("c16in", IMPORTS, defs, [it["inside"] for it in probe], shard=150)
     inside = len(probe) - len(rc["bad"])
     for e in rc["errors"]:
